@@ -272,6 +272,72 @@ func (e *engRunner) faultSweep(family string, idx int, gcfg gen.Cfg, rec eng.Rec
 	return points
 }
 
+// removeFaultSweep: the unlink of a table file fails (EIO/EACCES-like) - at every removal of
+// a *.ref file that A=[aDesc] performs, in turn. With proDesc != "" process P runs first and
+// makes A's pre-opened handle stale, so that A's reload drops tables (and tries to unlink
+// them). B=[bDesc] continues afterwards. The file whose unlink failed may stay; everything
+// else holds: A's handle stays readable and shows one committed version (M-view), the
+// list stays openable (M-dir), nothing else is left behind (M-own), no panic.
+func (e *engRunner) removeFaultSweep(family string, idx int, gcfg gen.Cfg, rec eng.Recipe, proDesc, aDesc, bDesc string) (points int) {
+	c := e.c
+	mk := func(k int) *eng.Scenario {
+		ts := newTxnSource(gen.Mix(c.Seed, int64(idx)*1000+43), gcfg.HashSize())
+		scripts := [][]eng.Call{ts.mkCalls(aDesc), append([]eng.Call{{Kind: "reopen"}}, ts.mkCalls(bDesc)...), ts.mkCalls(proDesc)}
+		name := fmt.Sprintf("first P=[%s]; then A=[%s] (pre-opened) whose unlink of a table file fails at its operation %d; then B=[%s]", proDesc, aDesc, k, bDesc)
+		return &eng.Scenario{Name: name, GCfg: gcfg, Init: rec, Scripts: scripts, Policy: &eng.Sweep1After{First: 2, A: 0, K: 1 << 30},
+			PreOpen: true, SkipTmpWrites: true, FaultProc: 0, FaultAt: k, FaultTableRemoves: true}
+	}
+	res := e.run(mk(0), family, idx)
+	if res.SetupErr != nil || res.Aborted || res.W == nil {
+		return 0
+	}
+	var ks []int
+	for _, o := range res.W.S.Trace {
+		if o.Proc == 0 && o.Kind == "remove" && vos.PathClass(o.Path) == "ref" {
+			ks = append(ks, o.N)
+		}
+	}
+	for _, k := range ks {
+		res := e.run(mk(k), family, idx)
+		if res.SetupErr != nil {
+			return points
+		}
+		if res.Procs[0].FaultFired == nil {
+			continue
+		}
+		points++
+		c.Rep.Count("table_unlink_faults_injected", 1)
+		op := res.Procs[0].FaultFired
+		c.Rep.SetAdd("io_fault_sites", op.Kind+"|"+vos.PathClass(op.Path)+"|"+op.Site+"|in "+op.Call)
+		c.Rep.Nontrivial(rep.Hash("rmfault", family, gcfg.String(), rec.String(), proDesc, aDesc, bDesc, fmt.Sprint(k)))
+	}
+	return points
+}
+
+// removeFaultFamilies: failing unlinks of table files in reloads of stale handles, in
+// compactions and in Close/Clean.
+func (e *engRunner) removeFaultFamilies(idx int) int {
+	c := e.c
+	cases := [][3]string{ // prologue, A, B
+		{"add,compactall", "add", "add,fresh"}, {"compactall", "read,add,read", "compactall"}, {"add,add,autocompact", "add", "clean,add"},
+		{"cr01", "add,read", "add"}, {"cr12,add", "read,add", "compactall,fresh"}, {"", "compactall", "add,fresh"}, {"", "autocompact,read", "add"},
+		{"", "add,add,add", "compactall"}, {"compactall", "close", "add,fresh"}, {"compactall,add", "clean,read", "add"}, {"", "compactexpiry", "add,fresh"}}
+	recs := []eng.Recipe{{0, 0}, {60, 0, 0}, {200, 40, 0, 0}, {0, 0, 0, 0, 0}}
+	for ci, cs := range cases {
+		for ri, rec := range recs {
+			if strings.HasPrefix(cs[0], "cr") && !haveCompactRange {
+				idx++
+				continue
+			}
+			if (c.Thorough() || (ci+ri)%2 == 0) && c.Mine(idx) {
+				e.removeFaultSweep("table-unlink-fault-sweep", idx, engCfg(ci+ri), rec, cs[0], cs[1], cs[2])
+			}
+			idx++
+		}
+	}
+	return idx
+}
+
 // sweepSlowClock: like sweepPair (A parked before each of its operations while B runs), with
 // the virtual clock advancing one second per reading.
 func (e *engRunner) sweepSlowClock(family string, idx int, gcfg gen.Cfg, rec eng.Recipe, aDesc, bDesc string, preOpen bool) int {
@@ -570,6 +636,9 @@ func RunC10(c *Ctx) {
 			}
 		}
 	}
+	// the unlink of a dropped table fails (read-only directory, EIO): the handle still
+	// ends up on one consistent version and stays readable
+	idx = e.removeFaultFamilies(idx)
 	// I/O errors inside Add / compaction / reload: the handle keeps a consistent view
 	idx = e.faultFamilies(idx, false, ",read,add,read", 3)
 	kinds := []string{"add", "add", "read", "read", "read", "compactall", "autocompact", "reopen", "addbig", "compactexpiry", "clean"}
@@ -642,6 +711,7 @@ func RunC16(c *Ctx) {
 		}
 	}
 	idx = e.staleCleanupFamilies(idx)
+	idx = e.removeFaultFamilies(idx)
 	idx = e.faultFamilies(idx, false, ",clean", 2)
 	for i := 0; i < c.N(800, 40000); i++ {
 		if c.Mine(idx) {
